@@ -39,6 +39,7 @@ class AsmFile:
         self.data = {}        # data label -> list of (directive, operand string)
         self.data_section = {}  # data label -> section
         self.code_labels = {}  # inner code label -> (func, offset)
+        self.sections = {}     # data section -> [(directive, operand)] in file order (metadata tables)
         self._parse()
 
     def _parse(self):
@@ -61,6 +62,7 @@ class AsmFile:
             m = _SECTION.match(line)
             if m:
                 section = m.group(1)
+                self.sections.setdefault(section, [])
                 dlabels = []
                 continue
             m = _LABEL.match(s)
@@ -118,6 +120,7 @@ class AsmFile:
                 arg = parts[1].strip() if len(parts) > 1 else ""
                 for l in dlabels:
                     self.data[l].append((d, arg))
+                self.sections.setdefault(section, []).append((d, arg))
 
     # ---------------------------------------------------------------------------------
     def jump_table(self, label):
